@@ -24,13 +24,13 @@ def pol_lit(pol):
 
 def vm_text(vm):
     """vm: dict flag -> None/True/False for raise, print, stop, fail"""
-    parts = [(k if v else "no-" + k) for k, v in vm.items() if v is not None]
+    parts = [(k if v else "no-" + k) for k, v in vm.items() if v is not None]      # incl. match / no-match
     return ("validation-mode: " + ", ".join(parts) + " :") if parts else ""
 
 
 def vm_lit(vm):
     o = lambda b: "None" if b is None else f"(Some {blit(b)})"
-    return f"(mkVm {o(vm['raise'])} {o(vm['print'])} {o(vm['stop'])} {o(vm['fail'])} None)"
+    return f"(mkVm {o(vm['raise'])} {o(vm['print'])} {o(vm['stop'])} {o(vm['fail'])} {o(vm.get('match'))})"
 
 
 def eff(vm, pol, k):
@@ -122,6 +122,8 @@ def expected(kind, pol, vm, offending, zero=False):
     """the property's statement, for these program shapes"""
     R, S, F, P, C = eff(vm, pol, "raise"), eff(vm, pol, "stop"), eff(vm, pol, "fail"), eff(vm, pol, "print"), "collect" in pol
     lo = 0 if zero else 1
+    M = vm.get("match") is True          # validation-mode: match - a line whose component raised matches all the same
+    name = (lambda i: "zz" if (M and i in offending) else str(i))
     if kind == "lasts":
         # the only error is on the frozen extra evaluation of the blank final record (line 5)
         return {"exc": "MatchException" if R else None, "lines": None if R else [str(i) for i in range(lo, 5)],
@@ -131,8 +133,8 @@ def expected(kind, pol, vm, offending, zero=False):
     if R:
         return {"exc": "MatchException", "lines": None, "error_lines": [first] if C else [], "valid": not F, "printed": P, "seen": upto}
     if S:
-        return {"exc": None, "lines": [str(i) for i in upto if i not in offending], "error_lines": [first] if C else [], "valid": not F, "printed": P, "seen": upto}
-    return {"exc": None, "lines": [str(i) for i in range(lo, 5) if i not in offending], "error_lines": sorted(offending) if C else [], "valid": not F, "printed": P,
+        return {"exc": None, "lines": [name(i) for i in upto if M or i not in offending], "error_lines": [first] if C else [], "valid": not F, "printed": P, "seen": upto}
+    return {"exc": None, "lines": [name(i) for i in range(lo, 5) if M or i not in offending], "error_lines": sorted(offending) if C else [], "valid": not F, "printed": P,
             "seen": list(range(lo, 5))}
 
 
@@ -191,6 +193,8 @@ def run(ctx):
     # (b)
     RVMS = [dict.fromkeys(["raise", "print", "stop", "fail"])]
     RVMS += [dict(RVMS[0], **d) for d in ({"raise": False, "stop": False}, {"raise": True, "print": True}, {"fail": True, "stop": True}, {"print": False, "fail": False})]
+    # validation-mode: match / no-match (the line whose component raised matches / does not match)
+    RVMS += [dict(RVMS[0], **d) for d in ({"match": True}, {"match": True, "raise": False, "stop": True}, {"match": False})]
     OFF = [{1}, {2}, {4}, {1, 2, 3, 4}, {2, 3}]
     rjobs = []
     for kind in KINDS:
